@@ -31,7 +31,11 @@ CASE (plain JSON-able dict)
           'getargs': [[argname, taskname, key], ...],
           'status': 'run'|'utd'|'error', 'ignored': bool, 'outcome': 'ok'|'failed'|'error',
           'how': 'return'|'raise'|'object' (how the action fails), 'teardown': bool,
-          'calc_res': None | {'task_dep': [names], 'file_dep': [files], 'calc_dep': [names]}}
+          'calc_res': None | {'task_dep': [names], 'file_dep': [files], 'calc_dep': [names]},
+          'calc_first': True (optional, gen_case(p_calc_then_fail=...)): the task has TWO python-actions -- the first
+                        returns the calc_res values, the second produces the oracle's outcome.  With outcome failed /
+                        error the task fails AFTER task.values was filled: doit still delivers the values to the tasks that
+                        have it as calc_dep (model: calcResFail / Run.deliverF); the receivers are reported unmet}
   A 'group' entry stands for the group task doit creates implicitly when the first sub-task `g:a` is yielded; it sits
   immediately before its first sub-task in the list (that is where doit puts it); it has no actions.
 
@@ -137,6 +141,18 @@ def expand(case):
             calc_res.append({'task': [idx[x] for x in cr.get('task_dep', [])],
                              'file': [own[f] for f in cr.get('file_dep', []) if f in own],
                              'calc': [idx[x] for x in cr.get('calc_dep', [])]})
+    # what a calc task delivers although its execution FAILED (_process_calc_dep_results reads task.values whatever the
+    # run_status): everything when only save_success raised, what the first action returned for a 'calc_first' task
+    calc_res_fail = []
+    for i, t in enumerate(tasks):
+        cr = t.get('calc_res')
+        late_fail = t['outcome'] == 'saveerr' or (t.get('calc_first') and t['outcome'] in ('failed', 'error'))
+        if cr is None or not late_fail or t['kind'] == 'group':
+            calc_res_fail.append(None)
+        else:
+            calc_res_fail.append({'task': [idx[x] for x in cr.get('task_dep', [])],
+                                  'file': [own[f] for f in cr.get('file_dep', []) if f in own],
+                                  'calc': [idx[x] for x in cr.get('calc_dep', [])]})
     if case.get('sel') is None:
         sel = list(range(n))
     else:
@@ -159,16 +175,19 @@ def expand(case):
                 if not (runs and q['outcome'] == 'ok' and not q['ignored'] and key == 'v' and q['kind'] != 'group'):
                     ok = False
         args_ok.append(ok)
-    return {'n': n, 'taskDep': task_dep, 'setup': setup, 'calcDep': calc_dep, 'sel': sel,
-            'cont': bool(case.get('cont')), 'always': always,
-            'runner': case.get('runner', 'serial'), 'nproc': int(case.get('nproc', 0)),
-            'ignored': [bool(t['ignored']) for t in tasks],
-            'status': [t['status'] for t in tasks],
-            'outcome': [t['outcome'] for t in tasks],
-            'argsOk': args_ok,
-            'teardown': [bool(t['teardown']) for t in tasks],
-            'noAct': [t['kind'] == 'group' for t in tasks],
-            'calcRes': calc_res}
+    model = {'n': n, 'taskDep': task_dep, 'setup': setup, 'calcDep': calc_dep, 'sel': sel,
+             'cont': bool(case.get('cont')), 'always': always,
+             'runner': case.get('runner', 'serial'), 'nproc': int(case.get('nproc', 0)),
+             'ignored': [bool(t['ignored']) for t in tasks],
+             'status': [t['status'] for t in tasks],
+             'outcome': [t['outcome'] for t in tasks],
+             'argsOk': args_ok,
+             'teardown': [bool(t['teardown']) for t in tasks],
+             'noAct': [t['kind'] == 'group' for t in tasks],
+             'calcRes': calc_res}
+    if any(x is not None for x in calc_res_fail):
+        model['calcResFail'] = calc_res_fail        # absent = nothing of the kind (the model's default)
+    return model
 
 
 def dynamic_edges(model):
@@ -182,14 +201,14 @@ def dynamic_edges(model):
         changed = False
         for i in range(n):
             for c in list(calc[i]):
-                cr = model['calcRes'][c]
-                if not cr:
-                    continue
-                new = set(cr['task']) | set(cr['file']) | set(cr['calc'])
-                if not new <= deps[i] or not set(cr['calc']) <= calc[i]:
-                    deps[i] |= new
-                    calc[i] |= set(cr['calc'])
-                    changed = True
+                for cr in (model['calcRes'][c], (model.get('calcResFail') or [None] * n)[c]):
+                    if not cr:
+                        continue
+                    new = set(cr['task']) | set(cr['file']) | set(cr['calc'])
+                    if not new <= deps[i] or not set(cr['calc']) <= calc[i]:
+                        deps[i] |= new
+                        calc[i] |= set(cr['calc'])
+                        changed = True
     return deps
 
 
@@ -238,7 +257,8 @@ def _pick_weighted(rng, weights, allowed):
 def gen_case(rng, n_min=3, n_max=9, runner=None, nproc=None, weights=None, p_group=0.3, p_shared=0.5,
              p_dual=0.08, p_dup_sel=0.15, p_ignored=0.07, p_utd=0.18, p_error=0.07, p_failed=0.14, p_exc=0.08,
              p_teardown=0.25, p_cont=0.4, p_always=0.06, p_calc_deliver=0.85, sel_mode=None, policy=None,
-             allow_cycle=False, all_ok=False, p_meta_names=0.0, p_share_lists=0.0):
+             allow_cycle=False, all_ok=False, p_meta_names=0.0, p_share_lists=0.0, p_combo=0.0,
+             p_calc_then_fail=0.0):
     """One random run case.  Graph: 3..9 tasks in a hidden topological order (all edges, static and delivered by calc
     results, go from later to earlier rank, so the graph is acyclic unless allow_cycle), then the definition order is
     shuffled.  Edge kinds: task_dep / setup / calc_dep / file (target->file_dep) / getargs (setup edge) / result_dep
@@ -247,7 +267,12 @@ def gen_case(rng, n_min=3, n_max=9, runner=None, nproc=None, weights=None, p_gro
     Opt-in knobs (default 0.0 = case stream unchanged, no extra draw from `rng`): p_meta_names = probability that task
     names get glob / format metacharacters (`t[3]`, `t?3`, `t{3}`, `g[0]:a?`; see apply_meta_names); p_share_lists =
     probability that tasks with equal `setup` / `task_dep` / `calc_dep` / `file_dep` / `targets` values are given ONE
-    shared list object in the dodo namespace (case['share'], see build_namespace)."""
+    shared list object in the dodo namespace (case['share'], see build_namespace); p_combo = probability that one
+    not-up-to-date task gets a calc_dep AND a task_dep AND a setup-task at once (three distinct lower-ranked tasks) and is
+    likely to be selected by name first, so that its calc_dep finishes (node woken) and then its task_dep finishes before
+    the node is stepped (case['combo'] = its name); p_calc_then_fail = probability that one calc task that delivers
+    something becomes a 'calc_first' task (see the case format) which mostly fails in its second action, mostly under
+    --continue (case['ctf'] = its name): doit delivers the values of the FAILED task (model: calcResFail)."""
     w = dict(DEFAULT_WEIGHTS)
     w.update(weights or {})
     n = rng.randint(n_min, n_max)
@@ -340,11 +365,35 @@ def gen_case(rng, n_min=3, n_max=9, runner=None, nproc=None, weights=None, p_gro
                 if vn not in t['result_dep']:
                     t['result_dep'].append(vn)
             popular.append(v)
+    combo = None
+    if p_combo and rng.random() < p_combo:
+        cand_w = [r for r, t in enumerate(ranked) if r >= 3 and t['kind'] != 'group']
+        if cand_w:
+            r = rng.choice(cand_w)
+            t = ranked[r]
+            low = [x for x in ranked[:r] if x['kind'] == 'task']
+            if len(low) >= 3:
+                c_, d_, s_ = sorted(rng.sample(low, 3), key=lambda x: rank[x['name']])
+                if rng.random() < 0.5:
+                    d_, s_ = s_, d_
+                # the calc_dep is the lowest-ranked of the three (it tends to finish first); mostly a clean success path
+                t['status'], t['ignored'] = 'run', False
+                if not all_ok and rng.random() < 0.8:
+                    for v in (c_, d_, s_):
+                        v['outcome'], v['ignored'] = 'ok', False
+                        if v['status'] == 'error':
+                            v['status'] = 'run'
+                for key, v in (('calc_dep', c_), ('task_dep', d_), ('setup', s_)):
+                    if v['name'] not in t[key]:
+                        t[key].append(v['name'])
+                combo = t['name']
     for t in ranked:
         if t['status'] == 'error':
             t['file_dep'].append('missing_%s' % t['name'].replace(':', '_'))
     # ---- calc results (delivered deps point below every receiver's rank)
     case = {'tasks': ranked, 'sel': None, 'cont': False, 'always': False, 'runner': 'serial', 'nproc': 0}
+    if combo is not None:
+        case['combo'] = combo
     receivers = {}
     for t in ranked:
         for c in t['calc_dep']:
@@ -382,6 +431,20 @@ def gen_case(rng, n_min=3, n_max=9, runner=None, nproc=None, weights=None, p_gro
                 if k == 'calc_dep':
                     receivers.setdefault(v['name'], set()).update(rec)
         t['calc_res'] = res
+    # ---- opt-in: a delivering calc task that fails AFTER its first action returned the values
+    ctf = None
+    if p_calc_then_fail and rng.random() < p_calc_then_fail:
+        cands = [t for t in ranked if t['calc_res'] is not None and any(t['calc_res'].values())]
+        if cands:
+            t = rng.choice(cands)
+            t['calc_first'] = True
+            t['status'], t['ignored'] = 'run', False
+            t['file_dep'] = [f for f in t['file_dep'] if not f.startswith('missing_')]
+            if rng.random() < 0.85:
+                t['outcome'] = rng.choice(['failed', 'failed', 'error'])
+                t['how'] = rng.choice(['return', 'raise', 'object'])
+            ctf = t['name']
+            case['ctf'] = ctf
     # ---- definition order: shuffle, group entry right before its first sub-task
     rest = [t for t in ranked if t['kind'] != 'group']
     rng.shuffle(rest)
@@ -403,6 +466,8 @@ def gen_case(rng, n_min=3, n_max=9, runner=None, nproc=None, weights=None, p_gro
             a['task_dep'].append(b['name'])      # low rank depends on high rank: may close a cycle
     # ---- selection
     mode = sel_mode or rng.choice(['all', 'all', 'all', 'names', 'names', 'names', 'target', 'target'])
+    if combo is not None and sel_mode is None and rng.random() < 0.5:
+        mode = 'names'
     names = [t['name'] for t in order]
     files = sorted(f for t in order for f in t['targets'])
     if mode == 'names' or (mode == 'target' and not files):
@@ -425,6 +490,8 @@ def gen_case(rng, n_min=3, n_max=9, runner=None, nproc=None, weights=None, p_gro
                 first = sel.index(dup)
                 rest_ = [x for i_, x in enumerate(sel) if x != dup or i_ == first]
                 sel = rest_ + [dup]
+        if combo is not None and rng.random() < 0.7:
+            sel = [combo] + [x for x in sel if x != combo]
         case['sel'] = sel
     elif mode == 'target':
         sel = [rng.choice(files)]
@@ -434,6 +501,8 @@ def gen_case(rng, n_min=3, n_max=9, runner=None, nproc=None, weights=None, p_gro
         case['sel'] = sel
     # ---- flags, runner
     case['cont'] = rng.random() < p_cont
+    if ctf is not None and rng.random() < 0.75:
+        case['cont'] = True             # without --continue the failure stops the run before anything is delivered
     case['always'] = (not all_ok) and rng.random() < p_always
     runner = runner or 'serial'
     case['runner'] = runner
@@ -490,6 +559,10 @@ def rename_tasks(case, mapping):
                     t['calc_res'][k] = [m(x) for x in t['calc_res'][k]]
     if case.get('sel') is not None:
         case['sel'] = [m(x) for x in case['sel']]
+    if case.get('combo') is not None:
+        case['combo'] = m(case['combo'])
+    if case.get('ctf') is not None:
+        case['ctf'] = m(case['ctf'])
 
 
 def apply_meta_names(case, rng, p_each=0.6):
@@ -548,6 +621,12 @@ def _all_deliver(model, case):
     return m
 
 
+def _failed_runs(trace):
+    """tasks that were executed (an action start is recorded) and reported failed"""
+    started = set(e[1] for e in trace if e[0] == 'start')
+    return set(e[1] for e in trace if e[0] == 'failure' and e[1] in started)
+
+
 def case_key(case):
     """canonical text of a case without the derived parts (used for distinctness)"""
     return common.canon({k: v for k, v in case.items() if k not in ('model',)})
@@ -566,6 +645,11 @@ def count_case(st, case, obs=None):
     """histogram of the input distribution (and of the branches the implementation took) into st.count"""
     if case.get('meta_names'):
         st.count('names:metachars')
+    if case.get('combo') is not None:
+        st.count('combo:calc+task+setup')
+    for _t in case['tasks']:
+        if _t.get('calc_first'):
+            st.count('calc_first:%s' % _t['outcome'])
     if case.get('share'):
         st.count('share:lists')
         for _a in case['share'].get('attrs', ()):
@@ -626,6 +710,9 @@ def count_case(st, case, obs=None):
         if any(m['calcRes'][c] and (m['calcRes'][c]['task'] or m['calcRes'][c]['file'] or m['calcRes'][c]['calc'])
                for c in succ):
             st.count('run:calc_result_delivered')
+        frun = _failed_runs(obs['trace'])
+        if any((m.get('calcResFail') or [None] * m['n'])[c] for c in frun) and case.get('cont'):
+            st.count('run:failed_calc_result_delivered')
         ws = set(e[2] for e in obs['trace'] if e[0] == 'start')
         if case['runner'] != 'serial':
             st.count('workers_used:%d' % len(ws))
@@ -791,6 +878,44 @@ def _make_action(rec, n, t):
     return action
 
 
+def _make_actions(rec, n, t):
+    """the action list of task n.  Normally ONE python-action (_make_action).  'calc_first': two -- the first records
+    the start, passes the checkpoint and RETURNS the calc_res values (task.values is filled), the second creates the
+    targets, records the end and produces the oracle's outcome; when that is failed / error the task fails with
+    non-empty task.values, which doit still hands to the tasks that have it as calc_dep."""
+    if not t.get('calc_first'):
+        return [_make_action(rec, n, t)]
+    outcome, how = t['outcome'], t.get('how', 'return')
+    targets = list(t['targets'])
+    res = dict(t['calc_res']) if t.get('calc_res') is not None else {}
+
+    def first():
+        w = rec.who()
+        rec.ev(['start', n, w])
+        rec.checkpoint(n)
+        return dict(res)
+
+    def second():
+        w = rec.who()
+        for f in targets:
+            with open(f, 'w') as fh:
+                fh.write('made by %d\n' % n)
+        rec.ev(['end', n, w])
+        if outcome == 'ok':
+            return {'v': n}
+        from doit.exceptions import TaskFailed, TaskError
+        if outcome == 'failed':
+            if how == 'object':
+                return TaskFailed('oracle says failed')
+            return False
+        if how == 'object':
+            return TaskError('oracle says error')
+        raise RuntimeError('oracle says error')
+    first.__name__ = 'calc_%d' % n
+    second.__name__ = 'act_%d' % n
+    return [first, second]
+
+
 def _make_teardown(rec, n):
     def teardown():
         if rec.td_events:
@@ -820,7 +945,7 @@ def build_namespace(case, rec):
                 if t['task_dep']:
                     yield {'basename': t['name'], 'name': None, 'task_dep': lst('task_dep', t['task_dep'])}
                 continue
-            d = {'actions': [_make_action(rec, n, t)]}
+            d = {'actions': _make_actions(rec, n, t)}
             if t['kind'] == 'sub':
                 d['basename'] = t['group']
                 d['name'] = t['name'].split(':', 1)[1]
@@ -1603,6 +1728,10 @@ def _variants(case):
                 c = clone()
                 del c['tasks'][i][k][j]
                 yield c
+        if t.get('calc_first'):
+            c = clone()
+            del c['tasks'][i]['calc_first']
+            yield c
         if t['calc_res'] is not None:
             c = clone()
             c['tasks'][i]['calc_res'] = None
@@ -1693,7 +1822,8 @@ def render(case):
         if t['outcome'] != 'ok':
             orc.append('action %s(%s)' % (t['outcome'], t['how']))
         if t['calc_res'] is not None:
-            orc.append('action returns %s' % {k: v for k, v in t['calc_res'].items() if v})
+            orc.append('%s returns %s' % ('FIRST of two actions' if t.get('calc_first') else 'action',
+                                          {k: v for k, v in t['calc_res'].items() if v}))
         if t['teardown']:
             orc.append('teardown')
         lines.append('#%d %-8s %s%s' % (n, t['name'], ' '.join(parts), ('   [' + '; '.join(orc) + ']') if orc else ''))
@@ -1794,8 +1924,10 @@ def py_monitor_c01(case, trace):
 
 def closure_of(case, trace):
     """C02's closure, judged on the trace: least set containing the selection, closed under task_dep, calc_dep,
-    results delivered by calc tasks that succeeded, and under setup of the tasks whose first select answered `run`
-    (a get_status report NOT immediately followed -- among reporter events -- by that task's skip/failure report)."""
+    results delivered by calc tasks that succeeded -- or that were executed and FAILED after task.values was filled
+    (model['calcResFail']; doit hands task.values to the waiting tasks whatever the run_status) --, and under setup of
+    the tasks whose first select answered `run` (a get_status report NOT immediately followed -- among reporter events
+    -- by that task's skip/failure report)."""
     model = case.get('model') or expand(case)
     idx = task_index(case)
     own = target_owner(case)
@@ -1807,6 +1939,8 @@ def closure_of(case, trace):
             if not (nxt is not None and nxt[0] in ('skip_ignore', 'skip_uptodate', 'failure') and nxt[1] == e[1]):
                 said_run.add(e[1])
     succeeded = set(e[1] for e in trace if e[0] == 'success')
+    failed_run = _failed_runs(trace)
+    res_fail = model.get('calcResFail') or [None] * model['n']
     clo = set()
     todo = [s for s in model['sel'] if s >= 0]
     calc_of = {}
@@ -1825,6 +1959,10 @@ def closure_of(case, trace):
             if c in seen_c:
                 continue
             seen_c.add(c)
+            if c in failed_run and c not in succeeded and res_fail[c]:
+                new += res_fail[c]['task'] + res_fail[c]['file'] + res_fail[c]['calc']
+                calcs += res_fail[c]['calc']
+                continue
             cr = case['tasks'][c].get('calc_res')
             if cr is None or c not in succeeded:
                 continue
